@@ -48,7 +48,7 @@ CHECKS += [
     {
         "property_id": "C10", "engine": "symx", "category": "model_checking",
         "technique": "bounded symbolic execution of Parameter/ParameterDict and of circuits holding Parameter objects + z3 (one inductive step from an arbitrary bounded state; relational liveness check)",
-        "text": "From an arbitrary Parameter state with min<=value<=max (any reals, any bound configuration), one set / min_bound / max_bound / ParameterDict assignment with an arbitrary real or non-numeric argument keeps the invariant and a rejected update changes nothing (z3 decides every comparison); circuits with parameters in bs/ps/loss, groups, heralded and nested sub-circuits report U for the current values for all v1,v2, frozen copies keep v1 and list no parameters, every parameter is listed once, out-of-range values surface as CircuitCompilationError.",
+        "text": "From an arbitrary Parameter state with min<=value<=max (any reals, any bound configuration), one set / min_bound / max_bound / ParameterDict assignment with an arbitrary real or non-numeric argument keeps the invariant and a rejected update changes nothing (z3 decides every comparison); circuits with parameters in bs/ps/loss, groups, heralded and nested sub-circuits report U for the current values for all v1,v2 (also after each in-place rewrite: unpack_groups, compress_mode_swaps, remove_non_adjacent_bs), frozen copies keep v1 and list no parameters, every parameter is listed once, out-of-range values surface as CircuitCompilationError.",
         "design_ref": "DESIGN.md section 4 C10", "note": SYMX_NOTE + " Induction over operation sequences is stated, not discharged.",
     },
 ]
